@@ -83,5 +83,19 @@ def Mutation.spec (f : Key → Option Bytes) : Mutation → Key → Option Bytes
 
 def applySpec (f : Key → Option Bytes) (ms : List Mutation) : Key → Option Bytes := ms.foldl Mutation.spec f
 
+/-- per step of a session: the mutation the call logs (if it is accepted) and whether the step rotates the memstore -/
+def sessionInfo (async : Bool) : Disk → Vol → List AStep → List (Option Mutation × Bool)
+  | _, _, [] => []
+  | d, v, a :: rest =>
+    let (es, v') := fsStep async d v a
+    (stepMut v.s a.st, stepRotates v.s a.st) :: sessionInfo async (applyEvs d es) v' rest
+
+/-- number of mutations issued up to (and including) the last rotating step; `cnt` = mutations so far -/
+def rotMarkFrom (mark cnt : Nat) : List (Option Mutation × Bool) → Nat
+  | [] => mark
+  | (mo, rot) :: rest => rotMarkFrom (if rot then cnt + mo.toList.length else mark) (cnt + mo.toList.length) rest
+
+def rotMark (info : List (Option Mutation × Bool)) : Nat := rotMarkFrom 0 0 info
+
 end FS
 end SST
